@@ -12,6 +12,7 @@ def main (args : List String) : IO UInt32 := do
       | "life-c01" => Driver.LifeDrv.run .c01 ops impl
       | "life-c03" => Driver.LifeDrv.run .c03 ops impl
       | "life-c04" => Driver.LifeDrv.run .c04 ops impl
+      | "life-residue" => Driver.LifeDrv.run .residue ops impl
       | _ => do IO.eprintln s!"unknown model {model}"; return 2
     return (if t.diffs == 0 && t.oracleFails == 0 then 0 else 1)
   | _ =>
